@@ -458,6 +458,68 @@ def apiPage (dir : Dir) (s : Sess) (n : Nat) : String :=
       | .ok es => fmtEntries es
       | .error t => t
 
+/-! ### `pushrun`: many appends in a row (a harness op, not a library call)
+
+`pushRunSlow` is the definition: `push_line` once per generated line.  For a session without
+caches `pushRunFast` computes the same thing in linear time by collecting what each
+`push_data` appends and writing it once at the end; `Proofs/PushRun.lean` proves them equal. -/
+
+/-- what one accepted `Data::push_data` appends to the data file and to the index file -/
+def pushDelta (d : DataSess) (ts : Nat) (line : Bytes) : R (Bytes × Bytes × DataSess) :=
+  let newSection : R (Bytes × Bytes × DataSess) :=
+    let e : IEntry := ⟨ts, d.dataLen⟩
+    .ok (metaWrite d.p ts ++ le2 0 ++ line.take d.p, encIEntry e,
+      { d with entries := d.entries ++ [e], lastFull := some ts,
+               dataLen := d.dataLen + metaSize d.p + lineSize d.p, lastTime := some ts })
+  match d.lastFull with
+  | none => newSection
+  | some lf =>
+    if ts < lf then .error (.err "OutOfOrder")
+    else if ts - lf > maxSmallTs then newSection
+    else .ok (le2 (ts - lf) ++ line.take d.p, [], { d with dataLen := d.dataLen + lineSize d.p, lastTime := some ts })
+
+/-- `push_line` of a session without caches, as a delta -/
+def pushLineDelta (s : Sess) (ts : Nat) (pl : Bytes) : R (Bytes × Bytes × Sess) :=
+  if pl.length ≠ s.d.p then .error (.err "WrongLineLength/WrongLineLength")
+  else
+    match rangeUpdate s.range ts with
+    | .error f => .error f
+    | .ok range' =>
+      match pushDelta s.d ts pl with
+      | .error f => .error (wrapErr "Pushing" f)
+      | .ok (a, b, d') => .ok (a, b, { s with d := d', range := range' })
+
+def Dir.appendMain (dir : Dir) (a b : Bytes) : Dir :=
+  { dir with main := { dir.main with data := appendTo dir.main.data a, index := appendTo dir.main.index b } }
+
+/-- result of a run of appends: directory, session (`none` after a panic), text -/
+structure RunOut where
+  dir : Dir
+  sess : Option Sess
+  out : String
+
+def pushRunSlow (stp count : Nat) : Nat → Nat → Nat → UInt64 → Dir → Sess → RunOut
+  | _, 0, _, _, dir, s => ⟨dir, some s, s!"ok {count}"⟩
+  | i, fuel+1, ts, seed, dir, s =>
+    let (pl, seed') := lcgBytes s.d.p seed
+    match pushLine dir s ts pl with
+    | (dir, .error .panic) => ⟨dir, none, "panic"⟩
+    | (dir, .error (.err c)) => ⟨dir, some s, s!"fail@{i} {c}"⟩
+    | (dir, .ok s') =>
+      if ts + stp < 2^64 then pushRunSlow stp count (i + 1) fuel (ts + stp) seed' dir s'
+      else ⟨dir, some s', s!"ok {i + 1}"⟩
+
+def pushRunFast (stp count : Nat) (dir0 : Dir) : Nat → Nat → Nat → UInt64 → Sess → List Bytes → List Bytes → RunOut
+  | _, 0, _, _, s, accD, accI => ⟨dir0.appendMain accD.reverse.flatten accI.reverse.flatten, some s, s!"ok {count}"⟩
+  | i, fuel+1, ts, seed, s, accD, accI =>
+    let (pl, seed') := lcgBytes s.d.p seed
+    match pushLineDelta s ts pl with
+    | .error .panic => ⟨dir0.appendMain accD.reverse.flatten accI.reverse.flatten, none, "panic"⟩
+    | .error (.err c) => ⟨dir0.appendMain accD.reverse.flatten accI.reverse.flatten, some s, s!"fail@{i} {c}"⟩
+    | .ok (a, b, s') =>
+      if ts + stp < 2^64 then pushRunFast stp count dir0 (i + 1) fuel (ts + stp) seed' s' (a :: accD) (b :: accI)
+      else ⟨dir0.appendMain (a :: accD).reverse.flatten (b :: accI).reverse.flatten, some s', s!"ok {i + 1}"⟩
+
 def withSess (w : World) (f : Dir → Sess → World × String) : World × String :=
   match w.sess with
   | none => (w, "closed")
@@ -495,18 +557,9 @@ def step (w : World) (op : Op) : World × String :=
     | (dir, .error .panic) => ({ w with dir := dir, sess := none }, "panic")
     | (dir, .error f) => ({ w with dir := dir }, fmtFault f)
   | .pushrun ts0 stp count seed => withSess w fun dir s =>
-    let rec go (i : Nat) (fuel : Nat) (ts : Nat) (seed : UInt64) (dir : Dir) (s : Sess) : World × String :=
-      match fuel with
-      | 0 => ({ w with dir := dir, sess := some s }, s!"ok {count}")
-      | fuel+1 =>
-        let (pl, seed') := lcgBytes s.d.p seed
-        match pushLine dir s ts pl with
-        | (dir, .error .panic) => ({ w with dir := dir, sess := none }, "panic")
-        | (dir, .error (.err c)) => ({ w with dir := dir, sess := some s }, s!"fail@{i} {c}")
-        | (dir, .ok s') =>
-          if ts + stp < 2^64 then go (i + 1) fuel (ts + stp) seed' dir s'
-          else ({ w with dir := dir, sess := some s' }, s!"ok {i + 1}")
-    go 0 count ts0 (UInt64.ofNat seed) dir s
+    let r := if s.caches.isEmpty then pushRunFast stp count dir 0 count ts0 (UInt64.ofNat seed) s [] []
+             else pushRunSlow stp count 0 count ts0 (UInt64.ofNat seed) dir s
+    ({ w with dir := r.dir, sess := r.sess }, r.out)
   | .readAll sb eb => withSess w fun dir s => finish w ((apiReadAll dir s sb eb).map fmtEntries)
   | .readFirstN n sb eb => withSess w fun dir s => finish w ((apiReadFirstN dir s n sb eb).map fmtEntries)
   | .readN n sb eb => withSess w fun dir s => finish w ((apiReadN dir s n sb eb).map fmtEntries)
